@@ -313,7 +313,7 @@ Definition cleanup (c : cfg) (pol : bool) (u : option usage) (scan order : list 
   if ag && pol && negb (c_alow c =? 0)
   then policy_pass (c_alow c) (option_map u_total u) scan order s
   else (ttl_pass (c_tti c) (if ag then c_attl c else c_ttl c) (if ag then c_alow c else 0) u scan s,
-        OPass (match order with [] => true | _ => false end) false).
+        OPass true false).                 (* order is not used: the walk is the scan order *)
 
 (* origin/blobserver/server.go:1015-1058 maybeDelete, the store calls only. owns = this origin is
    in the blob's hash-ring locations; wb = every pending write-back task of the blob executed
